@@ -20,7 +20,7 @@ func init() {
 				Repl: map[string]string{"override != nil": "override.isSome", "*override": "(override.getD 0)", "maxMultiplier": "maxMultiplier"}})},
 		{"waitForBackoff.dur", waitDur(cl)},
 		{"PostAndParseWithRetry.switch", retrySwitch(cl)},
-		{"PostAndParseWithRetry.retryAfterSeconds", assignKernelIn(cl, "JSONClient.PostAndParseWithRetry", "b", "time.Duration(seconds)", "retryAfterSeconds", "(seconds_ : Int)", "Int", Spec{Kind: "i64"})},
+		{"PostAndParseWithRetry.retryAfterSeconds", retryAfterSeconds(cl)},
 	}})
 }
 
@@ -131,5 +131,31 @@ func retrySwitch(rel string) func() string {
 		// the error branch above the switch: context errors returned, everything else backs off with set(nil)
 		return fmt.Sprintf("/-- generated from %s func PostAndParseWithRetry: per status, 0 = return success, 1 = retry at once, 2 = retry after backoff.set, 3 = return error -/\ndef retryClass : List (Nat × Nat) :=\n  [%s]\ndef retryClassDefault : Nat := %s\n",
 			rel, strings.Join(rows, ", "), def)
+	}
+}
+
+// retryAfterSeconds translates the body of `if seconds, err := strconv.Atoi(retryAfter); err == nil { … backoff = &b }`
+// (everything before the final `backoff = &b`) into a function of `seconds`.
+func retryAfterSeconds(rel string) func() string {
+	return func() string {
+		fd := mustFunc(rel, "JSONClient.PostAndParseWithRetry")
+		ss := findStmts(fd, func(s ast.Stmt) bool {
+			is, ok := s.(*ast.IfStmt)
+			return ok && is.Init != nil && strings.Contains(src(is.Init), "strconv.Atoi(")
+		})
+		if len(ss) != 1 {
+			panic(bail{rel + ": `if seconds, err := strconv.Atoi(...)` not found exactly once in PostAndParseWithRetry"})
+		}
+		is := ss[0].(*ast.IfStmt)
+		if src(is.Init) != "seconds, err := strconv.Atoi(retryAfter)" || src(is.Cond) != "err == nil" {
+			panic(bail{rel + ": Retry-After seconds parsing changed: " + src(is.Init) + "; " + src(is.Cond)})
+		}
+		body := is.Body.List
+		if len(body) < 2 || src(body[len(body)-1]) != "backoff = &b" {
+			panic(bail{rel + ": Retry-After seconds block no longer ends in `backoff = &b`"})
+		}
+		t := &tr{sp: Spec{Kind: "i64", Ret: "tuple", Repl: map[string]string{"math.MaxInt64": "(9223372036854775807 : Int)", "math.MinInt64": "(-9223372036854775808 : Int)"}}}
+		return fmt.Sprintf("/-- generated from %s func PostAndParseWithRetry: the duration computed from `Retry-After: <seconds>` -/\ndef retryAfterSeconds (seconds_ : Int) : Int :=\n  %s\n",
+			rel, t.block(body[:len(body)-1], "b_", "  "))
 	}
 }
